@@ -36,6 +36,11 @@
 #include <fcppt/math/box/stretch_absolute.hpp>
 #include <fcppt/math/box/stretch_relative.hpp>
 #include <fcppt/math/box/structure_cast.hpp>
+#include <fcppt/math/matrix/at_r.hpp>
+#include <fcppt/math/matrix/index.hpp>
+#include <fcppt/math/matrix/init.hpp>
+#include <fcppt/math/matrix/object_impl.hpp>
+#include <fcppt/math/matrix/static.hpp>
 #include <fcppt/math/dim/at.hpp>
 #include <fcppt/math/dim/init.hpp>
 #include <fcppt/math/dim/object_impl.hpp>
@@ -370,7 +375,20 @@ struct inst
   static std::string extp_line(box const &b, vec const &p)
   {
     namespace fb = fcppt::math::box;
-    return "ext=" + show_box(fb::extend_bounding_box(b, p)) + " in=" + b01(fb::contains_point(b, p));
+    std::string r = "ext=" + show_box(fb::extend_bounding_box(b, p)) + " in=" + b01(fb::contains_point(b, p));
+    // the point as a vector with another storage type: row 1 of a 2 x N matrix (a view into the matrix)
+    if constexpr (N >= 1)
+    {
+      using mat = fcppt::math::matrix::static_<T, 2, N>;
+      arr const pa{from(p)};
+      mat const m{fcppt::math::matrix::init<mat>(
+          [&pa]<fcppt::math::size_type R, fcppt::math::size_type C>(fcppt::math::matrix::index<R, C>)
+          { return R == 1 ? pa[C] : T{}; })};
+      r += b01(fb::contains_point(b, fcppt::math::matrix::at_r<1>(m)));
+    }
+    else
+      r += b01(fb::contains_point(b, p));
+    return r;
   }
 
   static std::string strel_line(box const &b, vec const &f)
@@ -439,12 +457,20 @@ struct inst
     dim const sz{b.size()};
     arr const sza{from_dim(sz)};
     box const rt1{b.pos(), sz};
+    // the user function of init_max / init_dim records its calls: exactly one per index, in index order
+    std::string calls2, calls3;
     box const rt2{fb::init_max<box>(
-        [&b]<fcppt::math::size_type I>(fcppt::math::size_constant<I>)
-        { return fcppt::tuple::make(fcppt::math::vector::at<I>(b.pos()), fcppt::math::vector::at<I>(b.max())); })};
+        [&b, &calls2]<fcppt::math::size_type I>(fcppt::math::size_constant<I>)
+        {
+          calls2 += (calls2.empty() ? "" : ",") + std::to_string(I);
+          return fcppt::tuple::make(fcppt::math::vector::at<I>(b.pos()), fcppt::math::vector::at<I>(b.max()));
+        })};
     box const rt3{fb::init_dim<box>(
-        [&b, &sza]<fcppt::math::size_type I>(fcppt::math::size_constant<I>)
-        { return fcppt::tuple::make(fcppt::math::vector::at<I>(b.pos()), sza[I]); })};
+        [&b, &sza, &calls3]<fcppt::math::size_type I>(fcppt::math::size_constant<I>)
+        {
+          calls3 += (calls3.empty() ? "" : ",") + std::to_string(I);
+          return fcppt::tuple::make(fcppt::math::vector::at<I>(b.pos()), sza[I]);
+        })};
     std::uint64_t hs = vh::fnv_init;
     for (vec const &v : lat)
       hs = mix_box(mix_box(hs, fb::shrink(b, v)), fb::stretch_absolute(b, v));
@@ -472,6 +498,15 @@ struct inst
     }
     std::ostringstream out;
     out << b;
+    std::string out_text{out.str()};
+    {
+      // the same through a wide stream (the operator widens its punctuation)
+      std::wostringstream wout;
+      wout << b;
+      std::wstring const w{wout.str()};
+      if (std::wstring(out_text.begin(), out_text.end()) != w)
+        out_text += "!wide-differs";
+    }
     std::string r;
     r += "size=" + show(sza) + " pos=" + show_vec(b.pos()) + " max=" + show_vec(b.max()) + sides(b);
     r += " corners=" + corners;
@@ -483,7 +518,8 @@ struct inst
     r += b01(b < b);
     r += b01(fb::contains(b, b));
     r += b01(fb::intersects(b, b));
-    r += " iv=" + intervals(b) + " out=" + out.str() + " alias=" + alias_part(b) + " cast=" + casts(b);
+    r += " calls=" + calls2 + "|" + calls3;
+    r += " iv=" + intervals(b) + " out=" + out_text + " alias=" + alias_part(b) + " cast=" + casts(b);
     r += " sh=" + vh::hex64(hs) + " xp=" + vh::hex64(hp) + " sr=" + vh::hex64(hr);
     return r;
   }
@@ -496,9 +532,9 @@ struct inst
     vec v;
   };
 
-  static constexpr std::array<char const *, 28> codes{
+  static constexpr std::array<char const *, 30> codes{
       "pv", "mv", "pm", "mp", "pb", "mb", "pbm", "sw", "ss", "sc", "cp", "sa", "mo", "sm",
-      "xi", "xb", "xv", "xm", "sh", "st", "shp", "stm", "ni", "ps", "ce", "px", "vp", "vm"};
+      "xi", "xb", "xv", "xm", "sh", "st", "shp", "stm", "ni", "ps", "ce", "px", "vp", "vm", "xa", "xe"};
 
   static int code_index(std::string const &c)
   {
@@ -552,6 +588,8 @@ struct inst
       break;
     case 26: s.v = s.a.pos(); break;
     case 27: s.v = s.a.max(); break;
+    case 28: s.a = fb::intersection(s.a, s.a); break;
+    case 29: s.a = fb::extend_bounding_box(s.a, s.a); break;
     default: break;
     }
   }
